@@ -274,6 +274,7 @@ void Handleset_destroy(HandleSet self) { if (self) { free(self); sim_live_handle
 
 /* ------------------------------------------------------------------ serial */
 SimSerial sim_serial[4];
+void (*sim_serial_hook)(int idx, const uint8_t* buf, int n) = NULL;
 struct sSerialPort { int idx; int baud; };
 static struct sSerialPort ports[4] = { {0, 9600}, {1, 9600}, {2, 9600}, {3, 9600} };
 SerialPort sim_serial_port(int idx) { return (SerialPort) &ports[idx]; }
@@ -283,7 +284,7 @@ bool SerialPort_open(SerialPort self) { (void) self; return true; }
 void SerialPort_close(SerialPort self) { (void) self; }
 int SerialPort_getBaudRate(SerialPort self) { return ((struct sSerialPort*) self)->baud; }
 void SerialPort_setTimeout(SerialPort self, int t) { (void) self; (void) t; }
-void SerialPort_discardInBuffer(SerialPort self) { (void) self; }
+void SerialPort_discardInBuffer(SerialPort self) { SimSerial* s = &sim_serial[((struct sSerialPort*) self)->idx]; s->in_pos = s->in_len = 0; }   /* tcflush */
 int SerialPort_readByte(SerialPort self)
 {
     SimSerial* s = &sim_serial[((struct sSerialPort*) self)->idx]; sim_hal_calls++;
@@ -293,6 +294,7 @@ int SerialPort_readByte(SerialPort self)
 int SerialPort_write(SerialPort self, uint8_t* buffer, int startPos, int numberOfBytes)
 {
     SimSerial* s = &sim_serial[((struct sSerialPort*) self)->idx]; sim_hal_calls++;
+    if (sim_serial_hook) sim_serial_hook(((struct sSerialPort*) self)->idx, buffer + startPos, numberOfBytes);
     if (s->out_len + numberOfBytes <= SIM_BUF) { memcpy(s->out + s->out_len, buffer + startPos, numberOfBytes); s->out_len += numberOfBytes; }
     return numberOfBytes;
 }
